@@ -276,11 +276,8 @@ func (u *Unit) ghostAsserts(done ast.Stmt, st *State) {
 			}
 		}
 	}
-	if k < 0 {
-		return
-	}
 	// a statement can also be addressed by the variable it defines: @def:NAME (robust against
-	// statements being inserted before it)
+	// statements being inserted before it; works at any nesting depth)
 	defTag := ""
 	if as, ok := done.(*ast.AssignStmt); ok && as.Tok == token.DEFINE {
 		for _, l := range as.Lhs {
@@ -290,8 +287,11 @@ func (u *Unit) ghostAsserts(done ast.Stmt, st *State) {
 			}
 		}
 	}
+	if k < 0 && defTag == "" {
+		return
+	}
 	hasTag := func(text, tag string) bool {
-		return strings.HasPrefix(text, tag+" ") || (defTag != "" && strings.HasPrefix(text, defTag+" "))
+		return (k >= 0 && strings.HasPrefix(text, tag+" ")) || (defTag != "" && strings.HasPrefix(text, defTag+" "))
 	}
 	for i, c := range b.clauses("assert") {
 		rest := c.Text
